@@ -337,7 +337,7 @@ class Hostile(Suite):
     rule = ("packet scripts of a hostile sender run against real Receive in a chroot'ed child process with sentinel trees beside and above dest: valid "
             "STAT walks mutated by ill-formed paths (.., ., '', a/../.., absolute, //, trailing /, backslash), duplicates, swaps, missing parents, "
             "children of files/symlinks, mode words with several type bits set (dir+symlink ...) plus link names, entries named like the writer's temporary files as symlinks pointing outside, hard links to unknown/escaping names, symlink entries with xattrs pointing outside, DATA for ids never requested, "
-            "ERR; dirty destinations containing symlinks that point outside; non-trivial = script with >= 2 packets, distinct")
+            "ERR; dirty destinations containing symlinks that point outside, also under the names the receiver itself writes (metadata-only listing, merge mode); non-trivial = script with >= 2 packets, distinct")
 
     def gen(self, rng, tier):
         n = {"quick": 250, "thorough": 6000, "search": 120}[tier]
@@ -457,8 +457,20 @@ class Hostile(Suite):
             if forced_dst:
                 dst = [e for e in dst if e["p"] != forced_dst[0]["p"]] + forced_dst
                 dst.sort(key=lambda e: gen.pathkey(bytes.fromhex(e["p"])))
-            ops.append({"op": "hostile", "script": script, "dst": dst, "answer": True if forced_dst else rng.random() < 0.7,
-                        "opt": {"cap": rng.choice([0, 4, 32]), "seed": rng.randrange(1 << 30)}})
+            opt = {"cap": rng.choice([0, 4, 32]), "seed": rng.randrange(1 << 30)}
+            answer = True if forced_dst else rng.random() < 0.7
+            if rng.random() < 0.1:
+                # receiver options under which the receiver itself writes a file (the metadata listing) / keeps old entries (merge):
+                # the destination already holds entries with the names the receiver uses, as symlinks pointing outside
+                opt["metaonly"] = [x["stat"]["p"] for x in script if x["t"] == "STAT" and x.get("stat") and rng.random() < 0.5]
+                if rng.random() < 0.7:
+                    opt["merge"] = True
+                dst = [e for e in dst if e["p"] != hx(b".fsutil-metadata")]
+                dst.append({"p": hx(b".fsutil-metadata"), "t": "symlink", "ln": hx(rng.choice([b"/outside/f", b"/outside/newlisting", b"../../../outside/f"])),
+                            "uid": 0, "gid": 0, "mt": gen.MTIMES[0], "mode": 0o777})
+                dst.sort(key=lambda e: gen.pathkey(bytes.fromhex(e["p"])))
+                answer = True
+            ops.append({"op": "hostile", "script": script, "dst": dst, "answer": answer, "opt": opt})
         return ops
 
     def judge(self, op, impl, model):
